@@ -1152,7 +1152,13 @@ class SetPartition(SetIndex):
             set_name,
             self.frame._meta.columns.dtype,
             kwargs,
-            self.user_divisions,
+            # hand the divisions computed for this plan to the lowered node: it must
+            # not depend on the process-wide ``divisions_lru`` still holding them
+            (
+                self.user_divisions
+                if self.user_divisions is not None
+                else tuple(self._divisions())
+            ),
         )
         return SortIndexBlockwise(index_set)
 
